@@ -16,6 +16,7 @@ mod c10;
 mod c11;
 mod c12;
 mod c15;
+mod c19;
 mod c20;
 
 pub type Check = fn(&str) -> Option<String>;
@@ -27,7 +28,7 @@ pub struct Family {
 }
 
 fn families() -> Vec<Family> {
-    vec![c20::family(), c15::family(), c07::family(), c05::family(), c06::family(), c08::family(), c10::family(), c11::family(), c12::family(), c03::family()]
+    vec![c20::family(), c15::family(), c07::family(), c05::family(), c06::family(), c08::family(), c10::family(), c11::family(), c12::family(), c03::family(), c19::family()]
 }
 
 pub fn hex(b: &[u8]) -> String {
